@@ -172,6 +172,9 @@ def rule_r22_partition(ctx, prog, rule="R22", body=None):
         ctx.ob(rule, "partition_mut/%s" % nm, ok, b.where(),
                "%s — on all %d return path states" % (text, n) if ok else "not established: %s" % detail, what="partition postcondition")
     ctx.floor(rule, len(res), 3, "postcondition instances on return paths")
+    from .segments import check_progress
+    okp, pdetail, _n = check_progress(sa, C, cursors)
+    ctx.ob(rule, "partition_mut/terminates", okp, b.where(), pdetail, what="partition loop may not terminate")
     return C, sa
 
 
@@ -194,6 +197,9 @@ def rule_r21_compaction(ctx, prog, rule="R21", body=None):
     ctx.ob(rule, "remove_nan_mut/inductive-invariants", ok_inv, b.where(),
            "inductive at all %d loop heads (Houdini over %d candidates): %s" % (len(sa.heads), len(cands), "; ".join(inv)) if ok_inv else
            "no inductive prefix/suffix invariant could be established (surviving: %s)" % inv, what="compaction invariant not inductive")
+    from .segments import check_progress
+    okp, pdetail, _n = check_progress(sa, C, cursors)
+    ctx.ob(rule, "remove_nan_mut/terminates", okp, b.where(), pdetail, what="compaction loop may not terminate")
 
     # the returned value on each path: slice_move(view, ..x)
     def post(st, path):
@@ -488,3 +494,41 @@ def rule_r18s_selection_converse(ctx, prog, rule="R18s"):
                    "under `%s`: all %d %s requirement(s) on the return paths are entailed by the abstract state" % (pre, cnt, kind) if not bad else
                    "under `%s` a panic is not excluded: %s" % (pre, bad[0]), what="possible panic for in-range arguments")
     ctx.floor(rule, total, 40, "panic-freedom requirements collected on the selection routines' paths")
+    # the public wrapper: past the `indexes.is_empty()` return the array has at least one element (a non-empty, in-bounds index
+    # list), and that is all that is known – so position 0 is the only constant position that may be read there
+    w = prog.find("sort::get_many_from_sorted_mut_unchecked", required=False)
+    if w is not None:
+        bad = []
+        n_idx = 0
+        for bb, t in w.calls():
+            if callee_name(t) in ("index", "index_mut") and "ndarray" in (t["callee"].get("path") or "") + str(t.get("arg_tys")):
+                a = [ds(x) for x in w.call_arg_exprs(bb)]
+                if len(a) == 2 and root_param(a[0]) == 1:
+                    n_idx += 1
+                    if a[1] != ("const", "usize", 0):
+                        bad.append("array[%s] at %s" % (fmt(a[1])[:40], w.where(bb, "term")))
+                        continue
+                    # … and only once the request is known to be non-empty
+                    from .rules_unsafe import bool_branch_dominating
+
+                    def empty_request(e):
+                        e = ds(e)
+                        if isinstance(e, tuple) and e[0] == "call" and e[1] == "is_empty" and e[3]:
+                            return root_param(e[3][0]) == 2
+                        if isinstance(e, tuple) and e[0] == "binop" and e[1] == "Eq":
+                            l_, r_ = ds(e[2]), ds(e[3])
+                            return isinstance(l_, tuple) and l_[0] == "call" and l_[1] == "len" and root_param(l_[3][0]) == 2 and r_ == ("const", "usize", 0)
+                        return False
+                    if not any(x_[1] is False for x_ in bool_branch_dominating(w, bb, empty_request)):
+                        bad.append("array[0] at %s without the request being known non-empty (an empty request on an empty array would panic)" % w.where(bb, "term"))
+        ctx.ob(rule, "bulk/wrapper-reads-position-0-only", not bad, w.where(),
+               "the wrapper reads the array at position 0 only (%d site(s)), which exists whenever a request is non-empty and in bounds" % n_idx if not bad else
+               "the wrapper reads %s: nothing guarantees that position exists" % bad[0], what="possible panic for in-range arguments")
+
+
+def root_param(e):
+    e = ds(e)
+    for _ in range(6):
+        if isinstance(e, tuple) and e[0] == "call" and e[1] in ("deref", "deref_mut", "view", "view_mut", "reborrow") and e[3]:
+            e = ds(e[3][0])
+    return e[1] if isinstance(e, tuple) and e[0] == "param" else None
